@@ -30,12 +30,39 @@ def pregen(work):
     return None
 
 
+def _note_matrix_coverage(work, res):
+    """evidence only (never an alarm): public entries of the regenerated table that the race matrix does not
+    exercise (`new matrix T m1,m2,…` lines of the trace vs `entries` of Ekit/Generated/AccessTable.lean)"""
+    import re
+    trace = os.path.join(work.dir, "corr-races", "trace.txt")
+    gen = os.path.join(core.LEAN, "Ekit", "Generated", "AccessTable.lean")
+    if not (os.path.exists(trace) and os.path.exists(gen)):
+        return
+    listed = {}
+    for line in open(trace):
+        ws = line.split()
+        if ws[:2] == ["new", "matrix"] and len(ws) >= 4:
+            listed[ws[2]] = set(ws[3].split(","))
+    src = open(gen).read()
+    m = re.search(r"def entries : List \(String × String\) := \[(.*?)\n\]", src, re.S)
+    if not m:
+        return
+    implicit = {("SegmentKeysLock", "Unlock"), ("SegmentKeysLock", "RUnlock")}
+    missing = sorted("%s.%s" % (t, e) for t, e in re.findall(r'\("([^"]*)", "([^"]*)"\)', m.group(1))
+                     if t in listed and e[:1].isupper() and ":" not in e and e not in listed[t] and (t, e) not in implicit)
+    res.coverage["c15_public_methods_outside_race_matrix"] = missing
+
+
 def extra(work, res, tier, proofs_ok):
     """directed search: when the regenerated table is no longer disciplined, the driver (model mode) names
     the method pairs with unprotected conflicting accesses (e.g. Get:read:vals[] vs Append:write:vals[]); those
     the matrix found clean are re-run heavier, both as the plain pair and as `directed` cases (all variants of
     one method against sequences "other mutators of the type as preparation, then the other method"),
     before settling for `no-failing-input-found`."""
+    try:
+        _note_matrix_coverage(work, res)
+    except Exception:
+        pass
     if proofs_ok or any(v[1] for v in res.violations):
         return      # nothing broken, or the matrix / sequence cases already produced a concrete race
     d = os.path.join(work.dir, "corr-races")
